@@ -39,6 +39,8 @@ RULE = (
     "group subscriber have terminated or unsubscribed, no source subscription may remain open.  Non-trivial: a key "
     "re-created after expiry, or >=2 groups open when the source errors (derived durations: when it terminates either "
     "way); partition: both outputs non-empty; early exit: all consumers gone while a group's duration was still pending.  "
+    "A third of the timeline durations are reactivex.timer(dt) built without a scheduler (the documented idiom), which "
+    "must run on the scheduler the pipeline was subscribed with, i.e. expire the group dt virtual ticks after creation.  "
     "subject_mapper (check subject_mapper): group_by / group_by_until given lambda: Subject() or the documented "
     "lambda: ReplaySubject(); with the replay subject the group probes may subscribe 1..5 ticks after the group was "
     "emitted and must still observe every element of the group in order and its terminal, none earlier than their own "
@@ -133,6 +135,12 @@ def _elemfn(tag):
 def _dur_obs(lab, c):
     if c["dt"] is None:
         return lab.cold([])
+    if c.get("via") == "timer":
+        # a time-based duration built WITHOUT an explicit scheduler (the documented idiom, e.g. reactivex.timer(d)):
+        # it runs on the scheduler the pipeline was subscribed with, so the group expires dt virtual ticks after creation
+        import reactivex
+
+        return reactivex.timer(lab.rel(c["dt"]))
     return lab.cold([[c["dt"], c["kind"], "i0" if c["kind"] == "N" else None]])
 
 
@@ -261,6 +269,10 @@ def _judge_group(case, i, sub, p, lab, keyfn, elemfn, durs):
         first = _late_view(first, case["late"])
     ref = matched[1] if matched else first
     cls = ["form:" + f, "src:" + case["src"]["kind"], "key:" + case["key"]["mode"]] + _resub_classes(case, i)
+    if any(c.get("via") == "timer" and c["dt"] is not None for c in durs):
+        cls.append("duration:scheduler-less-timer")
+        if any(g["end"] and g["end"][1] == "C" and (ref["outer_end"] is None or g["end"] != ref["outer_end"]) for g in ref["groups"]):
+            cls.append("group-expired-by-scheduler-less-timer" if all(c.get("via") == "timer" for c in durs) else "group-expired-mixed-durations")
     if case.get("subject"):
         cls.append("subject_mapper:" + case["subject"])
     if case.get("late"):
@@ -511,7 +523,9 @@ def _run(case):
 # generation
 
 _sub = st.sampled_from([0, 0, 0, 2])
-_dur = st.fixed_dictionaries({"dt": st.sampled_from([0, 1, 1, 2, 2, 3, 4, 6, None]), "kind": st.sampled_from(["N", "N", "C"])})
+_dur = st.fixed_dictionaries(
+    {"dt": st.sampled_from([0, 1, 1, 2, 2, 3, 4, 6, None]), "kind": st.sampled_from(["N", "N", "C"]), "via": st.sampled_from(["timeline", "timeline", "timer"])}
+)
 
 
 _resub = st.sampled_from([None, None, None, None, {"mode": "after"}, {"mode": "after"}, {"mode": "overlap", "at": 1}, {"mode": "overlap", "at": 3}])
